@@ -52,6 +52,10 @@ THEOREMS = [
     "XalanModel.Props.C12.union_idem",
     "XalanModel.Props.C12.clearNulls_reverse_preserve",
     "XalanModel.Props.C12.multiDoc_lastGroup_partial",
+    "XalanModel.Props.C12.multiDoc_grouped",
+    "XalanModel.Props.C12.multiDoc_history_grouped",
+    "XalanModel.Props.C12.step_merge_sortedSet",
+    "XalanModel.Props.C12.step_reverseAxis",
     "XalanModel.Props.C12.multiDoc_interleave_counterexample",
     "XalanModel.Props.C12.multiDoc_duplicate_counterexample",
     "XalanModel.Props.C12.docNode_appended_counterexample",
@@ -304,13 +308,15 @@ def probe_variant(h):
     -> (edge, docnode, raw replies): edge 'asis'|'fixed'|'other' for the ancestor/descendant edge of
     DOMServices::isNodeAfter (structural branch); docnode 'doclast'|'docfirst'|'other' for addNodeInDocOrder(document node)"""
     lines = ["session N", "doc 0 e0(e0())", "after d0.1 d0.2", "after d0.2 d0.1",
-             "session S", "doc 0 e0(e0())", "new 0", "addo 0 d0.2", "addo 0 d0.0"]
+             "session S", "doc 0 e0(e0())", "new 0", "addo 0 d0.2", "addo 0 d0.0",
+             "doc 1 e0(e0())", "new 1", "addo 1 d0.1", "addo 1 d1.1", "addo 1 d0.2"]
     il, rc = h.run_impl(lines, "probe")
-    if len(il) < 9:
+    if len(il) < 14:
         return None, None, il
     edge = "asis" if (il[2], il[3]) == ("1", "0") else "fixed" if (il[2], il[3]) == ("0", "1") else "other"
     dn = "doclast" if il[8] == "u : d0.2 d0.0" else "docfirst" if il[8] == "u : d0.0 d0.2" else "other"
-    return edge, dn, il
+    grp = "nogroups" if il[13] == "u : d0.1 d1.1 d0.2" else "groups" if il[13] == "u : d0.1 d0.2 d1.1" else "other"
+    return edge, dn + " " + grp, il
 
 
 class Session:
@@ -590,6 +596,139 @@ def report(ctx, h, variant, sessions, il, lines, owner, dis, vio, budget):
     return new_keys
 
 
+
+# ---------------------------------------------------------------------------------------------
+# stylesheet level: key(), id(), document(), result-tree fragments as node-sets, EXSLT set functions (Xalan CLI)
+
+def cli_oracle(case, out_lines):
+    """-> list of (class, what) for the node-sets delivered to xsl:for-each by one stylesheet run"""
+    docs = case["docs"]
+    key = {}
+    for d in docs.values():
+        key.update(d.key)
+    res = {}
+    for l in out_lines:
+        if ":" in l and l.startswith("Q"):
+            q, rest = l.split(":", 1)
+            res[q] = rest.split()
+    bad = []
+    m = docs["m"]
+
+    def sortkey(lab):
+        return key[lab]
+
+    def ordered(labs):
+        """duplicate-free, documents (and fragments) contiguous, document order inside each"""
+        seen, last = [], None
+        for x in labs:
+            k = key[x]
+            if last is not None and k[0] == last[0]:
+                if not k > last:
+                    return False
+            else:
+                if k[0] in seen:
+                    return False
+                seen.append(k[0])
+            last = k
+        return True
+    for q, expr, spec in case["queries"]:
+        if q not in res:
+            bad.append(("cli-missing", "%s %s: no output line" % (q, expr)))
+            continue
+        labs = res[q]
+        unknown = [x for x in labs if x not in key]
+        if unknown:
+            bad.append(("cli-label", "%s %s delivered unknown node label %s" % (q, expr, unknown[0])))
+            continue
+        ndocs = len(set(key[x][0] for x in labs))
+        if not ordered(labs):
+            # two result-tree fragments share one XalanSourceTreeDocument and a fragment root has index 0: a fragment
+            # root merged into a list that already holds nodes of another fragment lands in front of them
+            frag_roots = [x for x in labs if x in ("r0", "s0")]
+            frags = set(key[x][0] for x in labs if key[x][0] in ("r", "s"))
+            rest = [x for x in labs if x not in ("r0", "s0")]
+            if frag_roots and len(frags) > 1 and ordered(rest):
+                cls = "rtf-fragment-root"
+            else:
+                cls = "multi-document" if ndocs > 1 else "cli-order"
+            bad.append((cls, "cli %s delivered %s" % (expr, " ".join(labs))))
+            continue
+        if spec is None:
+            continue
+        kind = spec[0]
+        want = None
+        if kind == "key":
+            want = [e for e in m.elems if m.kval[e] == spec[1]]
+        elif kind == "id":
+            want = sorted(set("m" + i[1:] for i in spec[1] if ("m" + i[1:]) in m.key), key=sortkey)
+        elif kind == "idrefs":
+            want = sorted(set("m" + i[1:] for refs in m.refs.values() for i in refs if ("m" + i[1:]) in m.key), key=sortkey)
+        elif kind == "union":
+            ops = [res.get(x) for x in spec[1]]
+            if any(o is None or not ordered(o) for o in ops):
+                continue
+            allv = set(x for o in ops for x in o)
+            if len(set(key[x][0] for x in allv)) > 1:
+                # several documents: only grouping/no duplicates/same members are required (checked above + members)
+                if set(labs) != allv:
+                    bad.append(("multi-document", "cli %s delivered %s, operands hold %s" % (expr, " ".join(labs), " ".join(sorted(allv, key=sortkey)))))
+                continue
+            want = sorted(allv, key=sortkey)
+        elif kind in ("diff", "inter", "leading", "trailing"):
+            a, b = res.get(spec[1]), res.get(spec[2])
+            if a is None or b is None or not ordered(a) or not ordered(b):
+                continue
+            if kind == "diff":
+                want = [x for x in a if x not in b]
+            elif kind == "inter":
+                want = [x for x in a if x in b]
+            elif not b:
+                want = list(a)
+            elif b[0] not in a:
+                want = []
+            elif kind == "leading":
+                want = a[:a.index(b[0])]
+            else:
+                want = a[a.index(b[0]) + 1:]
+        elif kind == "distinct":
+            a = res.get(spec[1])
+            if a is None or not ordered(a):
+                continue
+            seenv, want = set(), []
+            for x in a:
+                v = docs[key[x][0]].kval[x.split("@")[0]]
+                if v not in seenv:
+                    seenv.add(v); want.append(x)
+        if want is not None and labs != want:
+            bad.append(("cli-set", "cli %s delivered [%s], expected [%s]" % (expr, " ".join(labs), " ".join(want))))
+    return bad, res
+
+
+def cli_stage(ctx, r, ncases, maxnodes):
+    g = gen()
+    xalan = os.path.join(common.build_dir("hooks"), "src", "xalanc", "Xalan")
+    work = os.path.join(common.CACHE, "work", "c12cli")
+    os.makedirs(work, exist_ok=True)
+    import re as _re
+    for ci in range(ncases):
+        case = g.gen_cli_case(r, maxnodes)
+        for name, text in case["files"].items():
+            with open(os.path.join(work, name), "w") as f:
+                f.write(text)
+        rc, out = common.sh([xalan, "m.xml", "s.xsl"], cwd=work, timeout=120)
+        if rc != 0:
+            ctx.fail("cli-crash: rc=%d %s" % (rc, out[-300:].replace("\n", " ")), "Xalan CLI failed on a generated node-set stylesheet: " + out[-600:],
+                     case["files"])
+            continue
+        bad, res = cli_oracle(case, out.split("\n"))
+        nq = len(case["queries"])
+        nonempty = sum(1 for v in res.values() if len(v) >= 2)
+        ctx.case(nontrivial_key=("cli|" + case["files"]["m.xml"] + "|" + case["files"]["s.xsl"][-600:]) if nonempty >= 5 else None,
+                 cls="cli-stylesheet", sample={"cli": case["files"]["m.xml"][:200], "queries": nq} if ci == 0 else None)
+        ctx.hist["cli-queries"] = ctx.hist.get("cli-queries", 0) + nq
+        for cls, what in bad[:5]:
+            ctx.fail("%s: %s" % (cls, what), what, {"files": case["files"], "what": what})
+
 def run(ctx):
     g = gen()
     ctx.rule = ("a case is one isNodeAfter matrix of a generated document (all ordered pairs of non-document nodes), one "
@@ -622,9 +761,9 @@ def run(ctx):
     elif edge != "fixed":
         ctx.oblige("probe of DOMServices::isNodeAfter ancestor/descendant edge", "correspondence", False, str(probe))
         edge = "fixed"
-    if dn not in ("doclast", "docfirst"):
-        ctx.oblige("probe of addNodeInDocOrder(document node)", "correspondence", False, str(probe))
-        dn = "docfirst"
+    if dn is None or dn.split()[0] not in ("doclast", "docfirst") or dn.split()[1] not in ("nogroups", "groups"):
+        ctx.oblige("probe of addNodeInDocOrder(document node) / of the multi-document search", "correspondence", False, str(probe))
+        dn = "docfirst nogroups"
     variant = edge + " " + dn
 
     # vlib's Rng is a Weyl sequence: Rng(s+1) is Rng(s) advanced by one draw; spread the seeds far apart
@@ -677,6 +816,8 @@ def run(ctx):
     report(ctx, h, variant, sessions, il, lines, owner, dis, vio, 3)
     report(ctx, h, variant, s2, il2, lines2, owner2, dis2, vio2, 3)
 
+    cli_stage(ctx, r, 40 if not ctx.thorough else 600, 16 if not ctx.thorough else 30)
+
     alldis = dis + dis2
     shr = []
     for d in alldis[:3]:
@@ -706,7 +847,7 @@ def replay(ctx, path):
     os.makedirs(work, exist_ok=True)
     h = Harness(ctx, impl, model, work)
     edge, dn, _ = probe_variant(h)
-    variant = "%s %s" % (edge if edge in ("asis", "fixed") else "fixed", dn if dn in ("doclast", "docfirst") else "docfirst")
+    variant = "%s %s" % (edge if edge in ("asis", "fixed") else "fixed", dn if (dn and "other" not in dn) else "docfirst nogroups")
     if not lines:
         print("replay file names no input; broken obligations:", [o["name"] for o in d.get("broken_obligations", [])])
         return 1
